@@ -191,8 +191,15 @@ class Engine:
         computed from precisely the delivered events."""
         rec.expect_exit_error = False
         for st in rec.stages:
-            if st.get("raised"):
-                continue  # after an injected subscriber failure this stage is unspecified
+            st["final"] = [list(st["next"]), st["completed"], list(st["errors"])]
+        relaxed = any(st.get("raised") for st in rec.stages)
+        for st in rec.stages:
+            if relaxed:
+                # after an injected subscriber failure this probe's deliveries are
+                # unspecified (the failure aborts _push); completion at most once still holds
+                if st["completed"] > 1:
+                    self.violate("C17.completed_once", {"probe": rec.id, "stage": st["kind"], "completed": st["completed"]})
+                continue
             vals = [d[st["cap"]] for _, d in rec.exp_all[st["since"]:] if st["cap"] in d]
             k = st["kind"]
             want_next, want_err = None, False
@@ -458,7 +465,9 @@ class Engine:
             pp._terminate_global_probes()
             res = "ok"
         except BaseException as e:
-            res = ["exit-error", canon(e)]
+            # a failing completion is reported by the hook after all probes were handled
+            self.sim.reach("exit_hook_error")
+            res = ["hook-raised", canon(e)]
         # model: every active probe is deactivated (in the order the hook saw them)
         for obj in order:
             for rec in self.probes.values():
@@ -487,11 +496,19 @@ class Engine:
         self.obs.append(ob)
         ok_model = self.check_model(ob)
         r = ob["res"]
+        raised_now = any(
+            st.get("raised") and not st.get("raised_seen")
+            for rec in self.probes.values() for st in rec.stages
+        )
+        for rec in self.probes.values():
+            for st in rec.stages:
+                if st.get("raised"):
+                    st["raised_seen"] = True
         # C16.no_absent is checked in every run of every lens
         if any(vn == "sys" for vn, _ in sim.absent_seen):
             self.violate("C16.no_absent", {"op": op, "sys": r.get("sys")})
             sim.absent_seen.clear()
-        if ok_model and "ref" in r and "sys" in r and not self.overriding_active():
+        if ok_model and "ref" in r and "sys" in r and not self.overriding_active() and not raised_now:
             if r["sys"]["out"] != r["ref"]["out"]:
                 self.violate(
                     "C01.same_outcome",
@@ -508,12 +525,22 @@ class Engine:
                 rec = self.probes[pid]
                 got = ob["got"].get(pid, [])
                 if rec.active and not rec.spec.get("nojudge"):
+                    if raised_now:
+                        # an injected subscriber failure aborted the probed call:
+                        # deliveries of this operation are unspecified; whatever
+                        # arrived is what later reductions must be computed from
+                        rec.exp_all.extend((self.opi, d) for d in got)
+                        continue
                     exp = self.expected_for(rec, ob["lo"], ob["hi"])
                     rec.exp_all.extend((self.opi, d) for _, d in exp)
                     self.compare_stream(self.stream_inv(rec), rec, exp, got)
                 elif got and not rec.active:
                     self.violate(
                         "C05.exactly_once",
+                        {"probe": pid, "inactive-but-received": got},
+                    )
+                    self.violate(
+                        "C17.silent_outside",
                         {"probe": pid, "inactive-but-received": got},
                     )
         out = r.get("sys", {}).get("out", ["?"])
@@ -609,7 +636,20 @@ class Engine:
             if exp_g != got_g:
                 self.violate("C05.global_set", {"after": op.get("op"), "expected": len(exp_g), "got": len(got_g)})
 
+    def final_checks(self):
+        for rec in self.probes.values():
+            if rec.active:
+                continue
+            for st in rec.stages:
+                if "final" in st and st["final"] != [st["next"], st["completed"], st["errors"]]:
+                    self.violate(
+                        "C17.silent_outside",
+                        {"probe": rec.id, "stage": st["kind"], "at deactivation": st["final"],
+                         "at end": [st["next"], st["completed"], st["errors"]]},
+                    )
+
     def result(self):
+        self.final_checks()
         viol = [v for v in self.viol if any(v[0].startswith(j) for j in self.judge)]
         foreign = [v for v in self.viol if not any(v[0].startswith(j) for j in self.judge)]
         return {
